@@ -59,6 +59,28 @@ class CallGraph:
                         work.append(p)
         return seen
 
+    def callers_of(self, path):
+        return {p for p, out in self.edges.items() if path in out}
+
+    def exclusive(self, root):
+        """root and the local functions (and closures) that are only ever referred to from root's own exclusive call tree:
+        the private helpers of root, however the body of root is split up."""
+        reach = {p for p in self.reachable([root]) if p in self.local}
+        excl = {root}
+        changed = True
+        while changed:
+            changed = False
+            for p in sorted(reach - excl):
+                cs = self.callers_of(p)
+                owner = p.split("::{closure")[0]
+                if "::{closure" in p and owner in excl:
+                    excl.add(p)
+                    changed = True
+                elif cs and cs <= excl:
+                    excl.add(p)
+                    changed = True
+        return excl
+
     def path_to(self, roots, pred, stop=()):
         """Shortest call chain from a root to a callee satisfying pred: list of paths, or None."""
         from collections import deque
